@@ -138,6 +138,8 @@ def build_prior(case):
                         unit = alt_unit(name)
                 if m["what"] == "badunit":
                     unit = bad_unit(name)
+                if m["what"] == "badunit2":
+                    unit = bad_unit2(name)
                 if m["what"] == "altunit":
                     unit = alt_unit(name)
             var = make_var(name, kind)
@@ -281,6 +283,10 @@ def check_data(case, part):
     elif form == "dict":
         data = {f"k{i}": s for i, s in enumerate(srcs)}
         accept = ns - 1 == no
+    elif form == "dict_prefix":
+        # keys of different lengths, later keys extending the first one
+        data = {["apo", "apo_north", "apo_n"][i]: s for i, s in enumerate(srcs)}
+        accept = ns - 1 == no
     elif form == "list_nonrv":
         data = srcs[:-1] + [np.arange(3.0)]
     elif form == "dict_nonrv":
@@ -404,9 +410,22 @@ def shard(cases):
     return part
 
 
+def bad_unit2(name):
+    """a second family of wrong units: angle <-> dimensionless mix-ups (only wrong if no global equivalency is active)"""
+    import astropy.units as u
+
+    if name == "e":
+        return u.deg
+    if name in ("omega", "M0"):
+        return u.one
+    return None
+
+
 def single_mutilations(pt_, no):
     lin, offs = lin_names(pt_, no)
     out = []
+    for name in ("e", "omega", "M0"):
+        out.append(dict(name=name, what="badunit2"))
     for name in NONLINEAR + lin + offs:
         if name not in offs:  # leaving out an offset just declares a prior with fewer offsets (valid)
             out.append(dict(name=name, what="omit"))
@@ -459,7 +478,7 @@ def build_cases(quick):
         for form in ("bare", "bare_cov", "number", "string", "none", "empty_list"):
             cases.append(dict(kind="data", n_offsets=no, form=form, n_sources=1))
         for ns in (1, 2, 3):
-            for form in ("list", "tuple", "dict"):
+            for form in ("list", "tuple", "dict", "dict_prefix"):
                 cases.append(dict(kind="data", n_offsets=no, form=form, n_sources=ns))
         for ns in (2, 3):
             for form in ("list_nonrv", "dict_nonrv", "list_cov"):
